@@ -61,6 +61,13 @@ def obligations(tier, ctx):
         for ln in ((1, 2) if tier == "quick" else (1, 2, 3)):
             obs.append(Ob(name=f"affix_w{where}_L{ln}", params=[("c", "str"), ("b", "bool")], pre=[f"len(c) == {ln}"], call=f"H.nego_affix(c, {where}, b)", backend="F", timeout=400,
                           family="answer = an offered version with a symbolic affix (appended / prepended / inserted)"))
+    for tracked in (True, False):
+        for be in ("P", "F"):
+            if tier == "quick" and be == "F":
+                continue
+            obs.append(Ob(name=f"renego_{'tracked' if tracked else 'plain'}_{be}", params=[("ok1", "bool"), ("s1", "int"), ("a1", "int"), ("s2", "int"), ("a2", "int")],
+                          pre=(["s1 in (0, 2)", "0 <= a1 <= 3", "s2 in (1, 3, 4)", "0 <= a2 <= 3"] if (tier == "quick" or be == "F") else ["0 <= s1 <= 4", "0 <= a1 <= 3", "0 <= s2 <= 4", "0 <= a2 <= 3"]) + (["ok1", "s1 == 0"] if be == "F" else []), call=f"H.renego(ok1, s1, a1, s2, a2, {tracked})", backend=be, timeout=900,
+                          family="a second handshake on the same streams with another supported list (after a successful or a failed first one)"))
     from symcheck import consts
     nsz = len(consts.size_cases(70000, extra=(4096, 8192, 65536, 131072)))
     for form in range(5):
